@@ -52,12 +52,24 @@ def lzclass(d, Q, Ln, Lp):
     return "+".join(out) or "-"
 
 
+_SIG = {}
+
+
 def same_key(ctx, a, b, what, cname, d):
     """Reloaded key equals the original and behaves the same."""
     probs = []
     try:
         if not (a == b) or (a != b):
             probs.append("== is False")
+        # the hash function handed to the loader is part of the key object: calls that rely on the key's default must behave alike
+        if b.default_hashfunc is not a.default_hashfunc:
+            probs.append("default_hashfunc is %r, loader was given %r" % (getattr(b.default_hashfunc, "__name__", b.default_hashfunc), getattr(a.default_hashfunc, "__name__", a.default_hashfunc)))
+        if isinstance(a, ecdsa.SigningKey) and b.verifying_key.default_hashfunc is not a.default_hashfunc:
+            probs.append("verifying_key.default_hashfunc is %r" % (getattr(b.verifying_key.default_hashfunc, "__name__", None),))
+        if isinstance(a, ecdsa.VerifyingKey) and _SIG.get("key") == (cname, d):
+            ctx.count("reloaded_vk_verifies_with_its_default_hash")
+            if b.verify(_SIG["sig"], _SIG["msg"]) is not True:
+                probs.append("reloaded key does not verify (with its default hash) a signature the original verifies")
         if a.curve != b.curve or a.curve.name != b.curve.name:
             probs.append("curve differs")
         if isinstance(a, ecdsa.SigningKey):
@@ -97,6 +109,10 @@ def check_key(ctx, curve, dom, d, named, lzhint=None):
     vk = sk.verifying_key
     oid = tuple(curve.oid)
     d_bytes = d.to_bytes(Ln, "big")
+    try:
+        _SIG.update(key=(cname, d), msg=b"c09 default hash", sig=sk.sign_deterministic(b"c09 default hash"))
+    except Exception:
+        _SIG.update(key=None)
     # ---------------- raw
     ctx.case("sk.raw", key="%s|%s" % (cname, lz), sample=dict(curve=cname, d=d, Q=Q, leading_zero=lz) if ctx.want("sk.raw") else None)
     try:
